@@ -62,7 +62,9 @@ for name in sys.argv[1:]:
         },
         'check_results': {
             'quick_check_exit_code_when_first_run': (before or {}).get('checks'),
-            'quick_check_exit_code_after_strengthening': (after or {}).get('checks') if after else 'not needed (caught at first run)',
+            'quick_check_exit_code_after_strengthening': (after or {}).get('checks') if after else (
+                'not needed (caught at first run)' if before and all(v == 1 for v in before['checks'].values())
+                else 'MISSED at first run; check not yet strengthened'),
             'witness_reported_by_check': (after or before or {}).get('witness'),
         },
     }
